@@ -92,9 +92,9 @@ Definition plain_ok (tl : str) (r : scan) : Prop :=
   | _ => True
   end.
 
-Lemma scan_number_ok : forall c tl, plain_ok tl (scan_number (c :: tl)).
+Lemma scan_number_ok : forall o c tl, plain_ok tl (scan_number o (c :: tl)).
 Proof.
-  intros c tl; unfold scan_number; destruct (parse_number (c :: tl)); unfold plain_ok; [ | exact I ].
+  intros o c tl; unfold scan_number; destruct (parse_number o (c :: tl)); unfold plain_ok; [ | exact I ].
   split; [ change (length (c :: tl)) with (S (length tl)); lia | reflexivity ].
 Qed.
 
@@ -269,6 +269,12 @@ Ltac comment_case lem :=
     end
   end.
 
+Lemma splain2_ok : forall tl b, b && hd_is (fun d => d == "*") (List.tl tl) = true -> plain_ok tl (SPlain 2 Standard).
+Proof.
+  intros tl b H; apply andb_prop in H; destruct H as [_ H].
+  destruct tl as [|a [|b' t]]; simpl in *; try discriminate. split; [ lia | reflexivity ].
+Qed.
+
 Lemma scan_token_ok : forall cas first prevc c tl, token_ok c tl (scan_token cas first prevc c tl).
 Proof.
   intros cas first prevc c tl; unfold scan_token.
@@ -278,6 +284,7 @@ Proof.
     try (apply plain_token_ok;
          first [ apply scan_number_ok | apply scan_string_ok | apply scan_char_ok | apply join1_ok | apply join2_ok ]);
     try exact I;
+    try (apply plain_token_ok; eapply splain2_ok; eassumption);
     try match goal with
         | H : _ && hd_is _ tl = true |- _ => let H1 := fresh in apply andb_prop in H; destruct H as [H1 H]
         end;
@@ -672,5 +679,5 @@ Proof. intros [|t r]; simpl; [ discriminate | apply strip_go_fixed_total ]. Qed.
 (* the pinned stripComments on "/*a*/ /*!<b*/": the backward comment becomes the first element once the first comment
    is erased, and the code decrements begin() *)
 Definition oob_input : str := ["/"; "*"; "a"; "*"; "/"; " "; "/"; "*"; "!"; "<"; "b"; "*"; "/"].
-Lemma strip_oob_witness : exists ts, lex false oob_input = Ok ts /\ strip_comments false ts = None.
+Lemma strip_oob_witness : exists ts, lex (pinned false) oob_input = Ok ts /\ strip_comments false ts = None.
 Proof. eexists; split; vm_compute; reflexivity. Qed.
